@@ -10,6 +10,18 @@ instance (priority := low) {α : Type} : TupleToList (α × α) α := ⟨fun p =
 instance {α τ : Type} [TupleToList τ α] : TupleToList (α × τ) α := ⟨fun p => p.1 :: TupleToList.toL p.2⟩
 def tupleToList {τ α : Type} [TupleToList τ α] (t : τ) : List α := TupleToList.toL t
 
+/-- attribute access / method call on an `Optional` value: `None.attr` raises AttributeError -/
+def optGet {α : Type} (o : Option α) : R α :=
+  match o with
+  | some v => .ok v
+  | none => raise .attributeError
+
+/-- use of a possibly-None value as a string argument (`''.join([None])` raises TypeError) -/
+def optGetT {α : Type} (o : Option α) : R α :=
+  match o with
+  | some v => .ok v
+  | none => raise .typeError
+
 def zip3 {α β γ : Type} : List α → List β → List γ → List (α × β × γ)
   | a :: as, b :: bs, c :: cs => (a, b, c) :: zip3 as bs cs
   | _, _, _ => []
